@@ -16,7 +16,7 @@ From P7 Require AesGen CrcGen.
 From P7gen Require AesBuf HelpersCrc.
 From P7 Require PyPrims DecompGen.
 From P7gen Require DecompChain.
-From P7 Require CompSession CompGen.
+From P7 Require CompSession CompGen ReadFully.
 From P7gen Require CompChain.
 Open Scope Z_scope.
 
@@ -707,3 +707,42 @@ Theorem C01_gen_sizes_and_crcs :
       exists ins, Echain E s0s (concat (map fst ms)) ins w /\ CompChain.SevenZipCompressor__unpacksizes o' = map zlen ins.
 Proof. exact CompGen.gen_sizes_and_crcs. Qed.
 Print Assumptions C01_gen_sizes_and_crcs.
+
+(* ---- helpers.read_fully: the short-read loop every header/stream read goes through (repair of the
+   short-read defect, C01 findings 8/17).  For EVERY file contents, position, size, block size >= 1
+   and schedule of short reads (each read() not at the end returns >= 1 byte) the call returns the
+   next `size` bytes -- fewer only at the end of the file -- and leaves the position just behind
+   them; size+1 loop iterations always suffice.  The model is run against the Python on the same
+   schedules by tools/harness/prims.py (GenDispatch FN 1088). ---- *)
+Theorem C01_read_fully_any_schedule :
+  forall (data : bytes) (pos size bs : nat) (caps : list nat),
+    (1 <= bs)%nat -> Forall (fun c : nat => (1 <= c)%nat) caps ->
+    ReadFully.read_fully (S size) data pos size bs caps = Some (ReadFully.next_bytes data pos size).
+Proof. exact ReadFully.read_fully_spec. Qed.
+Print Assumptions C01_read_fully_any_schedule.
+
+Theorem C01_read_fully_schedule_independent :
+  forall (data : bytes) (pos size bs bs' : nat) (caps caps' : list nat),
+    (1 <= bs)%nat -> (1 <= bs')%nat ->
+    Forall (fun c : nat => (1 <= c)%nat) caps -> Forall (fun c : nat => (1 <= c)%nat) caps' ->
+    ReadFully.read_fully (S size) data pos size bs caps = ReadFully.read_fully (S size) data pos size bs' caps'.
+Proof. exact ReadFully.read_fully_schedule_independent. Qed.
+Print Assumptions C01_read_fully_schedule_independent.
+
+Theorem C01_read_fully_compose :
+  forall (data : bytes) (pos n m : nat),
+    fst (ReadFully.next_bytes data pos n) ++ fst (ReadFully.next_bytes data (snd (ReadFully.next_bytes data pos n)) m)
+    = fst (ReadFully.next_bytes data pos (n + m)).
+Proof. exact ReadFully.read_fully_compose. Qed.
+Print Assumptions C01_read_fully_compose.
+
+Example C01_read_fully_hypotheses_met :
+  ReadFully.read_fully 8 [1;2;3;4;5;6;7;8;9;10]%Z 2 7 4 [3;1;2]%nat = Some ([3;4;5;6;7;8;9]%Z, 9%nat)
+  /\ ReadFully.read_fully 21 [1;2;3]%Z 1 20 4 [1]%nat = Some ([2;3]%Z, 3%nat).
+Proof. exact ReadFully.read_fully_example. Qed.
+
+(* a read() that returns b"" before the end (cap 0) stops the loop with a proper prefix: the
+   hypothesis `1 <= c` above is necessary, and the Python behaves the same way *)
+Example C01_read_fully_zero_cap_witness :
+  ReadFully.read_fully 8 [1;2;3;4;5]%Z 0 5 4 [2;0]%nat = Some ([1;2]%Z, 2%nat).
+Proof. exact ReadFully.read_fully_zero_cap_refuted. Qed.
